@@ -16,7 +16,8 @@ import Gallia.Model.UdsResp
     * `Fields.Canon` — calls in the form `_from_pdu` uses (one identifier, mapping form, explicit format bytes).
 
   Typed domain: enum-typed parameters (`UDSErrorCodes`, `DTCFormatIdentifier`) range over the members, `dict`
-  parameters over association lists without repeated keys, `int | None` parameters whose class-level signature is
+  parameters over association lists without repeated keys (a `{dtc: status}` list with a repeated key is no dict:
+  `none`; the record-number mapping is not inspected for repetitions), `int | None` parameters whose class-level signature is
   `int` are never `None`.
 -/
 namespace Gallia.UdsResp
@@ -60,10 +61,6 @@ def byteLen (n : Nat) : Nat := if n < 256 then 1 else byteLen (n / 256) + 1
 termination_by n
 decreasing_by omega
 
-def intKeysDistinct : List (Int × α) → Bool
-  | [] => true
-  | (k, _) :: rest => !(rest.any (fun p => p.1 == k)) && intKeysDistinct rest
-
 /-- `{dtc: status}` with every key / value in range → the record list -/
 def dictRecs : List (Int × Int) → Option (List (Nat × UInt8))
   | [] => some []
@@ -100,10 +97,8 @@ def subOf (e : Entry) : UInt8 := UInt8.ofNat (e.sub.getD 0)
 def dtcExtBody (e : Entry) (dtc : Nat) (status : UInt8) : List (Int × Bytes) → Option Resp
   | [] => none                                 -- no record number: the class's own parser has no reading of the PDU
   | (n, d) :: rest =>
-    if intKeysDistinct ((n, d) :: rest) then
-      match (if 0 ≤ n ∧ n ≤ 0xFD then some (UInt8.ofNat n.toNat) else none), extTail rest with
-      | some n', some t => if e.sub = some 6 then some (.dtcExt dtc status n' (d ++ t)) else none
-      | _, _ => none
+    if 0 ≤ n ∧ n ≤ 0xFD ∧ e.sub = some 6 then
+      (extTail rest).map (fun t => .dtcExt dtc status (UInt8.ofNat n.toNat) (d ++ t))
     else none
 
 /-- constructor + `.pdu` of the class of registry entry `e` -/
@@ -160,9 +155,9 @@ def constructE (e : Entry) : Fields → Option Resp
       | _, _ => none
     else none
   | .dtcListD mask recs =>
-    if e.kind = .dtcList ∧ intKeysDistinct recs ∧ listFits e recs.length then
+    if e.kind = .dtcList then
       match u8? mask, dictRecs recs with
-      | some m, some l => some (.dtcList (subOf e) m l)
+      | some m, some l => if distinctKeys l ∧ listFits e l.length then some (.dtcList (subOf e) m l) else none
       | _, _ => none
     else none
   | .dtcListB mask raw =>
